@@ -241,8 +241,6 @@ def family(rep: Any, prop: str, tier: str, seed: int) -> bool:
                              f"{c['variant']}, main thread held in {c['hold']}): " + " | ".join(what), c)
     info["wall_s"] = round(time.time() - t0, 1)
     rep.add("mp_midpass_failure_family", info)
-    if recs:
-        rep.sample({k: v for k, v in recs[0]["case"].items() if k != "info"})
     return found
 
 
